@@ -182,6 +182,7 @@ def obligations(cx):
                   statement="measurement points extracted for fitting are identical for molar and mass curve compositions")
             cx.ob("measurements.%s.point.%d" % (which, i), a.pc, band(eq(ma.f['x'], wj), eq(ma.f['t'], Tt), eq(ma.f['p'], P)), function=fnm,
                   statement="measurement point = (mass fraction of the feed point, curve temperature, permeance of the component)")
+    set_level_measurements(cx, mix, Tt)
     cx.assume_note("fitted coefficients are compared only through their inputs (identical measurement points / identical find_best_fit application), as in the statement")
     cx.assume_note("solver and helper lemmas use get_partial_pressures / calculate_partial_fluxes by contract with their basis lemmas applied by rewriting")
 
@@ -200,3 +201,47 @@ def leaves(v, out=None):
 def replay_case(r):
     nm = r['name']
     return dict(name=nm, mode='temperature' if 'temperature' in nm else 'pressure' if 'pressure' in nm else 'vacuum', env=dict(r.get('model') or {}))
+
+
+def set_level_measurements(cx, mix, Tt):
+    """Measurements.from_diffusion_curves_first/second on curve sets of 1..3 curves (each of symbolic length): the result is the
+    concatenation, curve by curve, of the per-curve measurement points (bounded in the number of curves, labelled)"""
+    src = cx.src
+    from ..contracts import flux as CF
+    ci = {'__class_invariants__': CP.CLASS_INVARIANTS}
+    maxk = 2 if cx.tier == 'quick' else 3
+    for which in ('first', 'second'):
+        fnm = 'Measurements.from_diffusion_curves_' + which
+        cx.under_contract(fnm)
+        f = src.find(fnm)
+        for k in range(1, maxk + 1):
+            curves = []
+            for c in range(k):
+                nc = var('n%d' % c, 'I')
+                fc = Seq(nc, lambda i, c=c: Obj('Composition', dict(p=app('w%d' % c, lift(i)), type='weight'), owner='external'), owner='external', tag=('w', c))
+                perms = Seq(nc, lambda i, c=c: (Obj('Permeance', dict(value=app('Pa%d' % c, lift(i)), units=CF.KG)), Obj('Permeance', dict(value=app('Pb%d' % c, lift(i)), units=CF.KG))), owner='external', tag=('P', c))
+                curves.append(Obj('DiffusionCurve', dict(mixture=mix, membrane_name='m', feed_temperature=var('Tc%d' % c), feed_compositions=fc, partial_fluxes=None, permeate_temperature=None, permeate_pressure=None,
+                                                        permeances=perms, comments=None), owner='external', tag=('curve', c)))
+            dset = Obj('DiffusionCurveSet', dict(name='set', diffusion_curves=PList(curves, owner='external')), owner='external', tag=('dcs', k))
+            pre = [var('n%d' % c, 'I') >= 1 for c in range(k)] + W.mixture_pre()
+            ps = cx.explore(lambda ex: ex.call_function(f, [dset], {}, cls='Measurements', inline=True), contracts=ci, pre=pre)
+            rs = returns(ps)
+            cx.ob("measurements-set.%s.%d-curves.paths" % (which, k), [], blit(len(rs) >= 1 and all(not p.ex.ext_writes for p in ps)), kind='paths', function=fnm)
+            j = var('jj', 'I')
+            for ri, r in enumerate(rs):
+                data = r.value.f['data']
+                total = lift(0)
+                for c in range(k): total = total + var('n%d' % c, 'I')
+                cx.ob("measurements-set.%s.%d-curves.%d.length" % (which, k, ri), r.pc, eq(data.n, total) if isinstance(data, Seq) else FALSE, function=fnm,
+                      statement="the set-level measurements contain every point of every curve")
+                off = lift(0)
+                for c in range(k):
+                    nc = var('n%d' % c, 'I')
+                    for q in returns(explore_thunk(r.ex, lambda: r.ex.seq_get(data, off + j), list(r.pc) + [j >= 0, j < nc, app('w%d' % c, j) >= 0, app('w%d' % c, j) <= 1, app('Pa%d' % c, j) >= 0, app('Pb%d' % c, j) >= 0])):
+                        m = q.value
+                        P = app(('Pa%d' if which == 'first' else 'Pb%d') % c, j)
+                        cx.ob("measurements-set.%s.%d-curves.%d.curve%d-points" % (which, k, ri, c), q.pc, band(eq(m.f['x'], app('w%d' % c, j)), eq(m.f['t'], var('Tc%d' % c)), eq(m.f['p'], P)), function=fnm,
+                              statement="points of curve c appear in order at offset n_0+...+n_(c-1): (mass fraction, curve temperature, permeance of the component)")
+                    off = off + nc
+    cx.bounded.append(dict(function='Measurements.from_diffusion_curves_first/second', bound="curve sets of 1..%d curves (each curve of arbitrary symbolic length)" % maxk,
+                           reason="accumulation loop over the curves of a set: unrolled per set size"))
